@@ -422,7 +422,7 @@ fn gjson(r: &mut Rng, depth: u32) -> serde_json::Value {
     }
 }
 
-pub const TYPES_X: &[&str] = &["Internal", "Adjacent", "Untagged", "Flat", "Renamed", "OptOpt", "Newtypes", "Wide", "Cows", "Json", "SerdeArg"];
+pub const TYPES_X: &[&str] = &["Internal", "Adjacent", "Untagged", "Flat", "Renamed", "OptOpt", "Newtypes", "Wide", "Cows", "Json", "SerdeArg", "Borrowed"];
 
 pub fn run_x(ty: &str, seed: u64) -> String {
     let r = &mut Rng::new(seed);
@@ -474,6 +474,21 @@ pub fn run_x(ty: &str, seed: u64) -> String {
                 Ok(Ok(q)) if q == p => "ok".into(),
                 Ok(Ok(q)) => format!("ne:got {:?} from {:?}", q, p),
                 Ok(Err(e)) => format!("err:{e}"),
+                Err(m) => format!("panic:{m}"),
+            }
+        }
+        "Borrowed" => {
+            // zero-copy targets (`&str`, `&[u8]`): the deserializer hands out `visit_str` / `visit_bytes`, never the
+            // borrowed forms, so these targets are refused (recorded; outside the statement)
+            let s = gs(r);
+            let v = Value::from(s.as_str());
+            let b = Value::from_bytes(s.as_bytes().to_vec());
+            let res = mjh::guarded(|| (<&str>::deserialize(&v).map(|x| x.to_string()), <&[u8]>::deserialize(&b).map(|x| x.to_vec())));
+            match res {
+                Ok((Err(_), Err(_))) => "refused".into(),
+                Ok((Ok(x), _)) if x != s => format!("ne:borrowed str came back as {x:?}"),
+                Ok((_, Ok(x))) if x != s.as_bytes() => format!("ne:borrowed bytes came back as {x:?}"),
+                Ok(_) => "ok".into(),
                 Err(m) => format!("panic:{m}"),
             }
         }
